@@ -557,6 +557,23 @@ def op_history_problems(node, rng, res=None) -> list:
         ("RSA private[decrypt]: RSA-OAEP decrypt, then RS256 sign", lambda: RSAKey(rsa.priv, rsa.priv, {"key_ops": ["decrypt"]}),
          lambda k: jwe.decrypt_compact(peer_oaep, k, registry=reg), lambda k: jws.serialize_compact({"alg": "RS256"}, b"m", k, algorithms=A)),
     ]
+    # one key object that has passed a gate once (its own curve, its own size, its own type) is gated again for another algorithm
+    def _sign(a):
+        return lambda k: jws.serialize_compact({"alg": a}, b"m", k, algorithms=A)
+    for own, others in (("ES256", ("ES384", "ES512", "ES256K")), ("ES384", ("ES256", "ES512")), ("ES512", ("ES256", "ES384")),
+                        ("ES256K", ("ES256",)), ("RS256", ("HS256", "ES256", "EdDSA")), ("EdDSA", ("ES256", "HS256"))):
+        if own not in node.jws_base:
+            continue
+        for other in others:
+            scenarios.append(("%s key object: %s sign, then %s sign" % (own, own, other),
+                              lambda _o=own: jose(node.jws_base[_o], True), _sign(own), _sign(other)))
+    oct32 = rng.bytes_(32)
+    scenarios.append(("oct 32 octets: A256KW wrap, then A128KW wrap", lambda: OctKey.import_key(oct32),
+                      lambda k: jwe.encrypt_compact({"alg": "A256KW", "enc": "A128GCM"}, b"p", k, registry=reg),
+                      lambda k: jwe.encrypt_compact({"alg": "A128KW", "enc": "A128GCM"}, b"p", k, registry=reg)))
+    scenarios.append(("oct 32 octets: dir A256GCM, then dir A128GCM", lambda: OctKey.import_key(oct32),
+                      lambda k: jwe.encrypt_compact({"alg": "dir", "enc": "A256GCM"}, b"p", k, registry=reg),
+                      lambda k: jwe.encrypt_compact({"alg": "dir", "enc": "A128GCM"}, b"p", k, registry=reg)))
     for name, mk, permitted, forbidden in scenarios:
         if res is not None:
             res.case("op-history", name)
